@@ -50,7 +50,7 @@ def one(d):
             res["error"] = "cannot parse demo_run"
             return res
         dest, cmd = m.group(1), m.group(2)
-        dest = re.sub(r"^/tmp/wt2?-C\d+/", "", dest)            # sub-agents sometimes name their own worktree
+        dest = re.sub(r"^/tmp/wt[23]?-C\d+/", "", dest)            # sub-agents sometimes name their own worktree
         cmd = re.sub(r"\(.*$", "", cmd).strip()
         cmd = re.sub(r"cd /tmp/\S+ && ", "", cmd)
         pkgs = sorted({os.path.dirname(l[6:].strip()) for l in open(os.path.join(d, "patch.diff")) if l.startswith("+++ b/")})
